@@ -33,6 +33,7 @@ def strat_reductions(draw, tier):
     case = dict(table=table, alts=alts, kind=kind, utils=draw(mc.utilities(info, alts, BETA_POOL)),
                 av=draw(mc.availabilities(info, alts)), nests=None, mu=None, log_gi=None, np_seed=0)
     case['av_order'] = list(draw(st.permutations(alts))) if draw(st.booleans()) else None
+    case['nest_names'] = draw(st.sampled_from(['indexed', 'indexed', 'none', 'same']))
     if kind == 'nested_all_one':
         case['nests'] = draw(mc.nested_structure(alts, force_all_one=True))
     elif kind in ('nested_mu_one', 'nested_tuple', 'nested_mu_tuple'):
@@ -87,8 +88,8 @@ def _observe_reductions(case):
     for a in case['alts']:
         ea = mc.model_expression(case, ma, ex.Numeric(a), tuple_syntax=ka.get('tuple_syntax', False))
         eb = mc.model_expression(case_b, mb, ex.Numeric(a), tuple_syntax=kb.get('tuple_syntax', False))
-        res['A'][a] = _num(ea.get_value_c(database=database, prepare_ids=True))
-        res['B'][a] = _num(eb.get_value_c(database=database, prepare_ids=True))
+        res['A'][a] = _num(ea.get_value_c(database=database, betas=mc.evaluation_betas(case), prepare_ids=True))
+        res['B'][a] = _num(eb.get_value_c(database=database, betas=mc.evaluation_betas(case), prepare_ids=True))
     return res
 
 
@@ -150,7 +151,8 @@ def strat_generating(draw, tier):
     # nest parameters as plain numbers here: the utilities are the only free parameters
     nests = [[['Lit', mc._pv(mu)] if mu[0] == 'Beta' else mu, g] for mu, g in nests]
     return dict(table=table, alts=alts, names=list(names), values=values, nests=nests,
-                av=draw(mc.availabilities(info, alts)), tuple_syntax=draw(st.booleans()), np_seed=0)
+                av=draw(mc.availabilities(info, alts)), tuple_syntax=draw(st.booleans()), np_seed=0,
+                nest_names=draw(st.sampled_from(['indexed', 'none', 'same'])))
 
 
 def _observe_generating(case):
@@ -169,7 +171,7 @@ def _observe_generating(case):
     util2 = {a: Beta(n, v, None, None, 0) for a, n, v in zip(case['alts'], case['names'], case['values'])}
     nests2 = mc.build_nests(fake, 'nested', case['tuple_syntax'])
     log_gi = models.get_mev_for_nested(util2, mc.build_av(case), nests2)
-    res['log_gi'] = {a: _num(e.get_value_c(database=database, prepare_ids=True)) for a, e in log_gi.items()}
+    res['log_gi'] = {a: _num(e.get_value_c(database=database, betas=mc.evaluation_betas(case), prepare_ids=True)) for a, e in log_gi.items()}
     return res
 
 
